@@ -61,7 +61,9 @@ CLAIMED = {
                                          f'+ {_B}',
                 text='Proved by executing the real function twice on related inputs: from_float '
                      'and get_overlap_slices shift by exactly the integer offset when box and '
-                     'frame are embedded in a larger canvas, and swap axes under transposition. '
+                     'frame are embedded in a larger canvas, and swap axes under transposition; the '
+                     'star finders map user positions to the unique pixel n with n-1/2 < x <= n+1/2 '
+                     '(translation covariant). '
                      'End-to-end covariance of every listed API under translation and '
                      'transposition is checked bounded on seeded scenes.',
                 note='relational two-run property: only the index arithmetic is proved'),
@@ -80,7 +82,9 @@ CLAIMED = {
                      'lazy attributes that read the fields it writes, with no stale read in between; '
                      'the lookup tables of reassign_labels / relabel_consecutive have the '
                      'documented effect on every label array (listed labels -> new label, k-th '
-                     'label -> start+k, everything else unchanged). Other operations and all '
+                     'label -> start+k, everything else unchanged); the border mask of '
+                     'remove_border_labels is True exactly within border_width of an edge for every '
+                     'shape (zero width selects nothing). Other operations and all '
                      'attributes vs a fresh object are checked bounded over all histories of '
                      'length <= 2 (sampled length 3).',
                 note='re-seeded caches assumed equal to their getters (bounded check); known '
@@ -93,7 +97,10 @@ CLAIMED = {
                      'into a pre-sized list whose indices were assigned at submission, the worker '
                      'function writes to none of its arguments, and the serial branch and the '
                      'parallel merge loop run textually identical statements in label order -- so '
-                     'the output does not depend on nproc or on the order in which workers finish. '
+                     'the output does not depend on nproc or on the order in which workers finish; '
+                     'the relabelling table maps background to 0, no source pixel to background, '
+                     'and present labels order-preservingly to start.. (with or without background '
+                     'pixels in the cutout). '
                      'Refinement facts and real spawn pools with permuted completion orders are '
                      'checked bounded.',
                 note='watershed / ndimage contracts not assumed; progress-bar calls assumed '
@@ -104,7 +111,8 @@ CLAIMED = {
                 text='Proved for every source and pixel: the total mask excludes exactly the '
                      'pixels off the segment, masked or non-finite; the moment cutouts are zero '
                      'exactly there and on negative values; no SourceCatalog getter writes a field '
-                     'another access reads; the segmentation image labels/slices stay coherent '
+                     'another access reads; segment_fluxerr squares error maps of any dtype in '
+                     'float; the segmentation image labels/slices stay coherent '
                      'under renumbering. The defining formulas are checked bounded with an '
                      'exact-rational pixel-loop oracle incl. row locality.',
                 note='formulas bounded only; known finding F41 (thin-source covariance NaN)'),
@@ -138,7 +146,9 @@ CLAIMED = {
                 note='A-real; numerical relations bounded only'),
     'C12': dict(engine='pyvc', technique=f'{_T} (_make_mask, configuration, per-call reset, '
                                          f'frames) + {_B}',
-                text='Proved: _make_mask returns mask | non-finite (None iff nothing to mask), '
+                text='Proved: the ungroup indices are a permutation listing the fitted rows by '
+                     'increasing source id and results are gathered through it; '
+                     '_make_mask returns mask | non-finite (None iff nothing to mask), '
                      'PSFPhotometry.__call__ rebinds no configuration, resets its results, modifies '
                      'no argument. Recovery of rendered scenes, grouping ids vs brute-force single '
                      'linkage, flags and ordering are checked bounded.',
@@ -149,7 +159,8 @@ CLAIMED = {
                      'PRF evaluate methods equal their closed forms; the elliptical Gaussian with '
                      'equal widths is the circular one at any rotation; sigma and FWHM forms '
                      'agree; linear in flux, non-negative, point-symmetric about (x_0, y_0); '
-                     'ImagePSF returns fill_value outside and maps sample points to integer knots; '
+                     'ImagePSF returns fill_value outside and maps sample points to integer knots, '
+                     'its origin is stored as given in (x, y) order; '
                      'the four bilinear weights of GriddedPSFModel; configuration immutability. '
                      'Normalisation sums and gridded interpolation are checked bounded.',
                 note='integrals / sums are bounded only; known finding F24 (rotated GaussianPRF)'),
@@ -189,7 +200,10 @@ CLAIMED = {
     'C19': dict(engine='pyvc', technique=f'{_T} (monotone-prefix contract, coherence, frames) + '
                                          f'{_B}',
                 text='Proved for all profiles: calc_radius_at_ee passes exactly the maximal strictly '
-                     'increasing prefix to the interpolator; normalize / unnormalize keep caches '
+                     'increasing prefix to the interpolator; RadialProfile.profile * area = '
+                     'difference of consecutive aperture sums with area = difference of overlap '
+                     'areas and errors differenced in quadrature (a constant image yields the '
+                     'constant); normalize / unnormalize keep caches '
                      'coherent structurally; the mask argument is not modified. Aperture '
                      'consistency and all <= 5-event normalisation histories are checked bounded.',
                 note='PCHIP interpolates its knots (assumed); scaled-cache values bounded'),
